@@ -38,7 +38,7 @@ def _hint_succ(V, k):
 
 class CP2R(Case):
     scopes = (1, 2, 3)
-    props = ("C01", "C19")
+    props = ("C01", "C19") + GENE_LAYER
     name = "CompoundInterval.parent_to_relative_pos[any number of blocks]"
     func = Q + "parent_to_relative_pos"
     call = "self.parent_to_relative_pos(p)"
@@ -133,7 +133,7 @@ lib.LIB.setdefault("recursive_only", set()).add(DW)
 
 class CR2P(Case):
     scopes = (1, 2, 3)
-    props = ("C01", "C19")
+    props = ("C01", "C19") + GENE_LAYER
     name = "CompoundInterval.relative_to_parent_pos[any number of blocks]"
     func = Q + "relative_to_parent_pos"
     call = "self.relative_to_parent_pos(r)"
